@@ -45,7 +45,7 @@ Pick == /\ pc = "pick" /\ d <= 9
         /\ d' = d + 1 /\ UNCHANGED <<pc, target, parent, tmp, files, res, err, touched>>
 Start == /\ pc = "pick" /\ d = 10 /\ pc' = "mkparent"
          /\ target' = (IF sc.target0 = "old" THEN "old" ELSE "absent")
-         /\ parent' = (IF sc.target0 = "missingdir" THEN "missing" ELSE "present")
+         /\ parent' = (IF sc.target0 \in {"missingdir", "tilde"} THEN "missing" ELSE "present")   \* "tilde": a home-relative path whose directories do not exist yet
          /\ UNCHANGED <<sc, d, tmp, files, res, err, touched>>
 
 Step(from, to) == pc = from /\ pc' = to
